@@ -9,7 +9,7 @@ import numpy as np
 
 from . import samplercase
 from .. import drive, env, workloads
-from ..instrument import Hooks, result_digest
+from ..instrument import Hooks, VirtualClock, result_digest
 
 ID = 'C11'
 LEVEL = 'exploration'
@@ -108,7 +108,7 @@ def _one_run(spec, variant, scratch, budget=None):
             warnings.simplefilter('ignore')
             # passive wrappers only count proposals; the budget turns a variant that spins (e.g. because stored
             # points left the unit cube) into an observable difference instead of a watchdog timeout
-            with Hooks(monitors, proposal_budget=budget) as h:
+            with Hooks(monitors, proposal_budget=budget, clock=VirtualClock()) as h:
                 s = workloads.make_sampler(prob, cfg, filepath=path, resume=False)   # pools fork with the wrappers
                 try:
                     ok = s.run(**kw)
